@@ -10,6 +10,7 @@ CHECKS = {
  'C08': ('E2 templates: no panic path feasible, EGraph::check() from MIR, enodes look up to their class, idempotent canonicalisation, after every operation', 'model_checking', '§4 C08'),
  'C09': ('E2 templates with re-insertion steps: no allocation, equal invocation, lookup agrees with add', 'model_checking', '§4 C09'),
  'C11': ('E2 templates: all paths (name orders) and hash iteration orders of one coincidence pattern yield identical observables', 'model_checking', '§4 C11'),
+ 'C17': ('E2 unit: one inductive step of Slot::fresh/numeric/named/Display from MIR from an arbitrary slot-table state under the quantified invariant; dev and release (wrapping) variants', 'model_checking', '§4 C17'),
  'C12': ('E2 templates and their reorderings (insertion order, union order, orientation) agree per coincidence pattern', 'model_checking', '§4 C12'),
 }
 NA = {
